@@ -194,7 +194,8 @@ def gen_jobs(run, behaviours):
             jobs.append({'kind': 'timing', 'variant': variant, 'len': n, 'schedule': {}, 'strict': True, 'start_err': False, 'default_busy': [],
                          'fwseed': rng.randrange(1000), 'via': 'fifo'})
     # (B2) single and double error injections at every erase / write step
-    statuses = list(range(1, 16))
+    # the sixteen statuses of DFU 1.1, and bStatus values outside its table (a vendor-specific or garbled answer is an error status too)
+    statuses = list(range(1, 16)) + [16, 42, 128, 255]
     for npages in ([1, 2, 3] if run.tier == 'quick' else [1, 2, 3, 4, 5, 8]):
         n = npages * 1024 - rng.choice([0, 1, 500])
         nops = 3 * npages  # erase per page, then setaddr+write per page
@@ -202,7 +203,7 @@ def gen_jobs(run, behaviours):
         # (a page is written by two requests: set address, then the block - an error can be reported for either)
         write_ops = [npages + 2 * k + 1 for k in range(npages)] + [npages + 2 * k for k in range(npages)]
         for op in erase_ops + write_ops:
-            for st in (statuses if run.tier == 'thorough' or npages <= 2 else [rng.choice(statuses), 4, 7]):
+            for st in (statuses if run.tier == 'thorough' or npages <= 2 else [rng.choice(statuses), 4, 7, rng.choice([16, 42, 128, 255])]):
                 for strict in (True, False):
                     jobs.append({'kind': 'inject1', 'variant': rng.choice('468B'), 'len': n, 'strict': strict,
                                  'schedule': {op: {'err': st, 'busy': [rng.choice(timeouts)] * rng.randrange(0, 3)}}})
